@@ -1688,15 +1688,26 @@ impl Fsm {
                                         if inv.doc_id == invoke_doc_id {
                                             toFinalize.push(inv.finalize);
                                         }
-                                        if inv.autoforward {
-                                            toForward.push(invokeId.clone());
-                                        }
                                     }
                                 }
                             }
                         }
                     }
                 };
+            }
+            // W3C: every external event is forwarded to each active invocation with autoforward set,
+            // not only the events that come from such an invocation.
+            for (invoke_id, session) in &get_global!(datamodel).child_sessions {
+                if let Some(state_id) = session.state_id {
+                    if self
+                        .get_state_by_id(state_id)
+                        .invoke
+                        .iterator()
+                        .any(|inv| inv.doc_id == session.invoke_doc_id && inv.autoforward)
+                    {
+                        toForward.push(invoke_id.clone());
+                    }
+                }
             }
             datamodel.set_event(&externalEvent);
             for finalizeContentId in toFinalize {
